@@ -157,7 +157,13 @@ func objects(w wld) (map[string]client.Object, []client.Object) {
 	add := func(o client.Object) {
 		objs[fmt.Sprintf("%T/%s/%s", o, o.GetNamespace(), o.GetName())] = o
 	}
-	quiet = append(quiet, kobj.Namespace("g", map[string]string{"tier": w.Label["g"]}), kobj.Namespace("r", map[string]string{"tier": w.Label["r"]}))
+	nsLabels := func(n string) map[string]string {
+		if w.Label[n] == "none" {
+			return nil // a namespace without any label
+		}
+		return map[string]string{"tier": w.Label[n]}
+	}
+	quiet = append(quiet, kobj.Namespace("g", nsLabels("g")), kobj.Namespace("r", nsLabels("r")))
 	add(kobj.GatewayClass("haproxy", pipeline.ControllerName))
 	add(kobj.GatewayClass("haproxy2", pipeline.ControllerName))
 	add(kobj.GatewayClass("other", "example.io/some-controller"))
